@@ -13,6 +13,7 @@
 #include "galois/runtime/SyncStructures.h"
 
 #include <fstream>
+#include <set>
 #include <sstream>
 
 namespace cll = llvm::cl;
@@ -165,32 +166,92 @@ int main(int argc, char** argv) {
     galois::runtime::getHostBarrier().wait();
     return 0;
   }
-  // ---- sync mode: plan lines "round host gid value"; initial value line "init <v>"
+  // ---- sync mode.  Streaming partitioners are not reproducible from run to
+  // run, so the partition is dumped by THIS run (vout.<host>.txt), all hosts
+  // read all dumps (same machine) and resolve the plan's write intents
+  // "i <round> <gid> <k> <value>" to the k-th proxy (hosts ascending) that is
+  // eligible for the write location; the driver does the same from the dumps.
+  dump_graph(graph, net.ID, net.Num);
+  galois::runtime::getHostBarrier().wait();
+  std::vector<std::set<uint64_t>> h_local(net.Num), h_owned(net.Num), h_out(net.Num), h_in(net.Num);
+  for (unsigned h = 0; h < net.Num; ++h) {
+    std::ostringstream dn;
+    dn << vout << "." << h << ".txt";
+    std::ifstream df(dn.str());
+    std::string line;
+    while (std::getline(df, line)) {
+      std::istringstream ls(line);
+      std::string t;
+      ls >> t;
+      if (t == "node") {
+        uint64_t lid, gid;
+        std::string w;
+        int owned;
+        ls >> lid >> gid >> w >> owned;
+        h_local[h].insert(gid);
+        if (owned)
+          h_owned[h].insert(gid);
+      } else if (t == "edge") {
+        uint64_t a, b;
+        ls >> a >> b;
+        h_out[h].insert(a);
+        h_in[h].insert(b);
+      }
+    }
+  }
+  auto eligible = [&](unsigned h, uint64_t g, int loc) {
+    if (!h_local[h].count(g))
+      return false;
+    if (h_owned[h].count(g))
+      return true;
+    if (loc == 0)
+      return h_out[h].count(g) != 0;
+    if (loc == 1)
+      return h_in[h].count(g) != 0;
+    return true;
+  };
   bitset_val.resize(graph.size());
   bitset_val.reset();
   std::ifstream plan(vplan);
   std::string tok;
   uint32_t init = 0;
   int rounds    = 0;
-  std::vector<std::array<uint64_t, 4>> writes;
+  std::vector<std::array<uint64_t, 4>> writes; // round host gid value
+  std::set<std::pair<uint64_t, uint64_t>> set_seen;
   while (plan >> tok) {
     if (tok == "init")
       plan >> init;
     else if (tok == "rounds")
       plan >> rounds;
-    else if (tok == "w") {
-      std::array<uint64_t, 4> w;
-      plan >> w[0] >> w[1] >> w[2] >> w[3];
-      writes.push_back(w);
+    else if (tok == "i") {
+      uint64_t r, g, k, v;
+      plan >> r >> g >> k >> v;
+      std::vector<unsigned> el;
+      for (unsigned h = 0; h < net.Num; ++h)
+        if (eligible(h, g, vwrite))
+          el.push_back(h);
+      if (el.empty())
+        continue;
+      if ((int)vreduce == 2) { // set: at most one writer per node and round
+        if (set_seen.count({r, g}))
+          continue;
+        set_seen.insert({r, g});
+      }
+      writes.push_back({r, (uint64_t)el[k % el.size()], g, v});
     }
   }
   for (uint32_t l = 0; l < graph.size(); ++l)
     graph.getData(l).val = init;
   std::ostringstream name;
-  name << vout << "." << net.ID << ".txt";
+  name << vout << ".vals." << net.ID << ".txt";
   std::ofstream f(name.str());
   f << "host " << net.ID << " of " << net.Num << "\n";
   for (int r = 0; r < rounds; ++r) {
+    // add-style fields: as the applications do with residual-like fields, every
+    // proxy consumes (zeroes) the field before the next round of accumulation
+    if ((int)vreduce == 1 && r > 0)
+      for (uint32_t l = 0; l < graph.size(); ++l)
+        graph.getData(l).val = 0;
     for (auto& w : writes) {
       if ((int)w[0] != r || w[1] != net.ID)
         continue;
